@@ -48,7 +48,7 @@ def main():
             "enable": "no source hooks: checks load /repo/buidl/*.py from the working tree through an import hook with shadowed builtins "
                       "(symx/loader.py); the variable is exported by ./check for completeness",
             "baseline_off_cmd": "cd /repo && /venv/bin/python -m pytest -ra -q -p no:cacheprovider --timeout=900 "
-                                "--continue-on-collection-errors -n 16",
+                                "--continue-on-collection-errors",
             "source_commits": [],
             "add_only": True,
         },
